@@ -372,7 +372,6 @@ func runC16(c *Ctx) {
 		c.Unknown("R16.8", pkgRRuntime+" :: tracker pool Put", token.NoPos, "anchor-unresolved: no call of "+putGlob)
 	}
 
-
 	// ---------- error discipline (E8)
 	errDisciplineFor(c, "C16")
 }
